@@ -551,6 +551,7 @@ func vTrafficLabels(c *vlib.Case, s *vtraffic.Scenario) vtraffic.Stats {
 	c.LabelIf(st.Reordered > 0, "reordered")
 	c.LabelIf(st.DeepReorder > 0, "segment-captured->256-segments-late")
 	c.LabelIf(s.EqualStamps > 0, "equal-timestamps-across-conversations")
+	c.LabelIf(s.Unordered > 0, "capture-file-not-in-timestamp-order")
 	c.LabelIf(st.BucketMates > 0, "udp-flows-sharing-a-flow-table-bucket")
 	c.LabelIf(st.BucketMates > 0 && st.DurationUS > 5*60*1000000, "udp-flows-sharing-a-flow-table-bucket+scenario>5min")
 	c.LabelIf(st.Retransmitted > 0, "retransmitted")
